@@ -644,6 +644,30 @@ pub fn main(args: &Args) {
             }
             code += nsh;
         }
+        // (a6) thorough only: the depth the property's quantifier names (length 6), for the configuration in which the
+        // size limit binds hardest (limit 3 with sizes {0, 1, 3}, time limit 60)
+        if thorough {
+            let total6 = k.pow(6);
+            let mut code = shard;
+            while code < total6 {
+                let mut x = code;
+                let mut seq = Vec::with_capacity(6);
+                for _ in 0..6 {
+                    seq.push(ops[x % k]);
+                    x /= k;
+                }
+                r.eval();
+                r.count("exhaustive_sequences_of_length_6", 1);
+                let res = match hvcommon::util::catch_panic(|| run_seq(&seq, 3, 60, &mut stats)) {
+                    Ok(x) => x,
+                    Err((msg, loc)) => Some((format!("C16/panic@{}", loc), format!("cache operation panicked at {}: {}", loc, msg))),
+                };
+                if let Some((sig, what)) = res {
+                    r.violation(&sig, what, seq_json(&seq, 3, 60), vec!["c16".into(), "--ops".into(), encode_ops(&seq), "--limit".into(), "3".into(), "--time".into(), "60".into()]);
+                }
+                code += nsh;
+            }
+        }
         // (b) random long sequences over 32 keys (2 hosts), sizes 0..limit
         let mut rng = Rng::derive(seed, 0x1600 + shard as u64);
         let phase_b = hvcommon::util::catch_panic(|| {
@@ -729,6 +753,6 @@ pub fn main(args: &Args) {
         r
     });
     let total = Report::merge_all(reports);
-    let rule = format!("(a) every operation sequence of length {} over 24 operations (set x 3 keys x 2 hosts x 3 sizes {{0, limit/2, limit}}, get x 3 keys x 2 hosts) for size limits {{0,1,3,64}} (and 64 KiB on every 61st sequence) x time limits {{0,1,60}}, probing every key ever stored after every operation (so every shorter sequence is covered as a prefix); (b) random sequences of 100..2000 operations over 32 keys x 2 hosts; (c) 1..8 threads through RwLock<Cache> as the handlers use it, unique values, per-key interval check; (d) file_handler/directory_handler with a cache-enabled AppState over files rewritten between requests, with real sleeps past the time limit, incl. stores over expired entries; (f) the real server binary with cache on and four virtual hosts whose directory routes sit at different route positions, each host with a second directory route /docs/* holding files of the same relative paths, the same URIs requested on every host in random order. non-trivial = at least two stores; distinct = distinct sequences / histories", maxlen);
+    let rule = format!("(a) every operation sequence of length {} over 24 operations (set x 3 keys x 2 hosts x 3 sizes {{0, limit/2, limit}}, get x 3 keys x 2 hosts) for size limits {{0,1,3,64}} (and 64 KiB on every 61st sequence) x time limits {{0,1,60}}, probing every key ever stored after every operation (so every shorter sequence is covered as a prefix), in the thorough tier also every sequence of length 6 for size limit 3 / time limit 60; (b) random sequences of 100..2000 operations over 32 keys x 2 hosts; (c) 1..8 threads through RwLock<Cache> as the handlers use it, unique values, per-key interval check; (d) file_handler/directory_handler with a cache-enabled AppState over files rewritten between requests, with real sleeps past the time limit, incl. stores over expired entries; (f) the real server binary with cache on and four virtual hosts whose directory routes sit at different route positions, each host with a second directory route /docs/* holding files of the same relative paths, the same URIs requested on every host in random order. non-trivial = at least two stores; distinct = distinct sequences / histories", maxlen);
     total.write(out, &rule, Some(true), &["a hit's real age is bounded by time limit + 1 s (the cache clock has one-second resolution)", "with time limit 0 an item just stored may or may not be retrievable (the two clauses coincide only at age 0)", "exhaustive refers to part (a)", "stores larger than the size limit are not generated (the handlers never do that and the property quantifies sizes from 0 to the limit)"]);
 }
